@@ -11,7 +11,7 @@ from ..parser_exceptions import (
     DuplicateLabelException,
 )
 from architecture_simulator.uarch.toy.SvgVisValues import SvgVisValues
-from architecture_simulator.isa.parser import Parser
+from architecture_simulator.isa.parser import Parser, check_int_literal
 
 if TYPE_CHECKING:
     from architecture_simulator.uarch.toy.toy_architectural_state import (
@@ -27,7 +27,7 @@ class ToyParser(Parser):
     _no_address_mnemonics = ["NOT", "INC", "DEC", "ZRO", "NOP"]
 
     _pattern_hex_value = pp.Combine("0x" + pp.Word(pp.hexnums))
-    _pattern_dec_value = pp.Word(pp.nums)
+    _pattern_dec_value = pp.Word(pp.nums).add_parse_action(check_int_literal(10))
 
     _pattern_label = pp.Word(pp.alphas + "_", pp.alphanums + "_")
 
